@@ -178,7 +178,7 @@ func (k *Kernel) Listen(network, addr string) (net.Listener, error) {
 	g := k.gLocked(id)
 	if k.checkDeadLocked(g) {
 		k.leave()
-		runtime.Goexit()
+		hangForever()
 	}
 	host, port, err := net.SplitHostPort(addr)
 	if err != nil {
@@ -250,7 +250,7 @@ func (k *Kernel) DialContext(ctx context.Context, network, addr string) (net.Con
 	g := k.gLocked(id)
 	if k.checkDeadLocked(g) {
 		k.leave()
-		runtime.Goexit()
+		hangForever()
 	}
 	if err := ctx.Err(); err != nil {
 		k.leave()
@@ -425,7 +425,7 @@ func (c *Conn) Read(p []byte) (int, error) {
 	for {
 		if c.deadNode() {
 			k.leave()
-			runtime.Goexit()
+			hangForever()
 		}
 		if c.closed {
 			k.leave()
@@ -494,7 +494,7 @@ func (c *Conn) Write(p []byte) (int, error) {
 	for {
 		if c.deadNode() {
 			k.leave()
-			runtime.Goexit()
+			hangForever()
 		}
 		if c.closed || c.wclosed {
 			k.leave()
